@@ -136,7 +136,9 @@ class LabelProbabilityInjector(Injector):
         undefined_classes = [k for k in all_classes if k not in class_probabilities]
 
         # specified class probabilities must sum to 1 or less
-        if sum(class_probabilities.values()) > 1.0:
+        if sum(class_probabilities.values()) > 1.0 and not np.isclose(
+            sum(class_probabilities.values()), 1.0
+        ):
             raise ValueError(f"Probabilities in {class_probabilities} exceed 1")
 
         # args should not specify previously unseen classes
